@@ -33,6 +33,11 @@ CPROJECT = {
     'subprojects/sub/meson.options': PROJECT['subprojects/sub/meson.options'],
 }
 
+# the same language-less project with the ninja backend (a custom target gives the manifest something to say): the recovery
+# has to leave a build.ninja that ninja can read
+NPROJECT = dict(PROJECT)
+NPROJECT['meson.build'] = PROJECT['meson.build'] + "custom_target('ct', output: 'ct.txt', command: ['touch', '@OUTPUT@'], build_by_default: true)\n"
+
 # histories: lists of commands (argv after 'meson') run before the command under test; 'B' stands for the build dir
 HISTORIES = {
     'fresh': [],
@@ -141,6 +146,17 @@ def trial(job):
     if rr.rc != 0:
         res['viol'] = ('C09:recovery-fails:%s' % cmdname, '%s: recovery `%s` fails (rc %d): %s' % (what, ' '.join(rec[:2]), rr.rc, rr.out[-300:]))
         return res
+    if backend == 'ninja':
+        # "no state file is left unreadable": the manifest the recovery wrote is a valid Ninja manifest
+        from verif import refninja as rn
+        try:
+            mf = rn.parse_file(os.path.join(bdir, 'build.ninja'))
+            errs = list(mf.errors) + mf.validate(bdir)
+        except (rn.NinjaError, OSError) as e:
+            errs = [str(e)]
+        if errs:
+            res['viol'] = ('C09:recovery-leaves-invalid-manifest:%s' % cmdname, '%s: after the recovery build.ninja is not a valid manifest: %s' % (what, '; '.join(errs[:3])[:300]))
+            return res
     after = observe(rr.out)
     _, newvals = COMMANDS[cmdname]
     bad = []
@@ -216,20 +232,22 @@ def main():
     if not os.path.exists(fsfault.SHIM):
         ck.internal('tools/bin/fsfault.so missing: run ./setup.sh')
     mp.preimport()
-    projects = [('nolang', PROJECT, 'none')]
+    projects = [('nolang', PROJECT, 'none'), ('nolang-ninja', NPROJECT, 'ninja')]
     if ck.thorough:
         projects.append(('c-ninja', CPROJECT, 'ninja'))
         global FOLLOW_WIPE
         FOLLOW_WIPE = True
     if ck.args.replay:
         d = json.load(open(ck.args.replay))
-        proj = PROJECT if d['project'] == 'nolang' else CPROJECT
+        proj = {'nolang': PROJECT, 'nolang-ninja': NPROJECT}.get(d['project'], CPROJECT)
         backend = 'none' if d['project'] == 'nolang' else 'ninja'
         job, snap, before, points, rc, same = count_points((d['project'], proj, backend, d['history'], d['command']))
         res = trial((d['project'], proj, backend, d['history'], d['command'], d['k'], d.get('tear', 0)))
         print(res)
         sys.exit(1 if res['viol'] else 0)
-    cjobs = [(pn, pj, be, h, c) for pn, pj, be in projects for h, c in PAIRS]
+    # the ninja-backend variant of the language-less project: in quick only the commands that write the manifest, on two histories
+    NPAIRS = [('fresh', 'setup-fresh'), ('configured', 'reconfigure-D'), ('configured', 'wipe'), ('failed-reconfigure', 'reconfigure-D')]
+    cjobs = [(pn, pj, be, h, c) for pn, pj, be in projects for h, c in PAIRS if ck.thorough or pn != 'nolang-ninja' or (h, c) in NPAIRS]
     trials = []
     tot = {'pairs': 0, 'mutation_points': 0, 'trials': 0, 'killed': 0, 'log_only_points_grouped': 0}
     per_pair = {}
